@@ -313,9 +313,9 @@ def _register(g):
     oset(n + ".getters", ["C10", "C19"], [_fn(g, x) for x in getters])(lambda h: _getters(h, g))
     oset(n + ".update", ["C10", "C12", "C14", "C19"], fz(GEN[g]["update"]))(lambda h: _update(h, g))
     oset(n + ".subscribe", ["C12"], [_fn(g, "subscribe"), _fn(g, "unsubscribe")])(lambda h: _subscribe(h, g))
-    oset(n + ".set_power", ["C04", "C11", "C02", "C19"], [_fn(g, "set_power"), _fn(g, GEN[g]["send"])])(lambda h: _set_power(h, g))
-    oset(n + ".set_damper_percentage", ["C04", "C11", "C02", "C19"], [_fn(g, "set_damper_percentage"), _fn(g, GEN[g]["send"])])(lambda h: _set_damper(h, g))
-    oset(n + ".set_target_temperature", ["C04", "C11", "C02", "C19"], [_fn(g, "set_target_temperature"), _fn(g, GEN[g]["send"])],
+    oset(n + ".set_power", ["C04", "C11", "C02", "C19", "C07"], [_fn(g, "set_power"), _fn(g, GEN[g]["send"])])(lambda h: _set_power(h, g))
+    oset(n + ".set_damper_percentage", ["C04", "C11", "C02", "C19", "C07"], [_fn(g, "set_damper_percentage"), _fn(g, GEN[g]["send"])])(lambda h: _set_damper(h, g))
+    oset(n + ".set_target_temperature", ["C04", "C11", "C02", "C19", "C07"], [_fn(g, "set_target_temperature"), _fn(g, GEN[g]["send"])],
          assumptions=["round(): correctly rounded, ties to even (CPython)", "floats treated as exact reals (decifloat abstraction)"])(lambda h: _set_target(h, g))
 
 
